@@ -222,6 +222,26 @@ def _controllers_everywhere():
                         pass
 
 
+def _midi_bindings():
+    """Modules of several types with MIDI bindings on their (often same-named) controllers, saved and loaded."""
+    from rv.api import Project, Synth, m, read_sunvox_file
+    from rv.cmidmap import MidiMessageType, Slope
+
+    p = Project()
+    for k, cls in enumerate((m.Amplifier, m.AnalogGenerator, m.Generator, m.Echo, m.MetaModule)):
+        mod = p.new_module(cls)
+        for j, name in enumerate(list(mod.controllers)[:6]):
+            mm = mod.controller_midi_maps[name]
+            mm.message_type = MidiMessageType(1 + (j + k) % 7)
+            mm.channel = (3 * j + k) % 17
+            mm.slope = Slope((j + k) % 5)
+            mm.message_parameter = 1000 + 10 * k + j
+        read_sunvox_file(BytesIO(Synth(mod).read()))
+    q = read_sunvox_file(BytesIO(p.read()))
+    q.modules[1].controller_midi_maps["volume"].channel = 9
+    q.read()
+
+
 def _surplus_and_missing_chunks():
     """Files as other SunVox versions write them: more CVAL/CMID records than the type declares
     controllers, fewer than it declares, unknown chunk ids, extra numbered CHNK entries."""
@@ -262,7 +282,18 @@ OPS = [
     _controllers_everywhere,
     _fixtures,
     _surplus_and_missing_chunks,
+    _midi_bindings,
 ]
+
+# cheap ops that a check may run *inside* a case (between two observations of one object)
+LIGHT = [_legacy_version_load, _metamodule_mapped, _nested_metamodule, _sampler_edited, _failed_loads, _options_toggled, _midi_bindings, _surplus_and_missing_chunks]
+
+
+def light(i):
+    try:
+        LIGHT[i % len(LIGHT)]()
+    except Exception:  # noqa: BLE001 - noise is not an oracle
+        pass
 
 _STATE = {"n": 0, "ran": 0}
 
